@@ -175,6 +175,7 @@ structure Stack where
   refreshLog : List (Addr × SvcKey × Nat × Nat) := []   -- ghost: (source, service, time, ttl) of every TimedStore.refresh of found_services
   armLog : List (Cb × Nat × Nat) := []           -- ghost: (expiry callback, time, ttl) of every TimedStore.refresh that stores an entry (both stores)
   offLog : List (Nat × OEv × Nat) := []          -- ghost: (instance, event, time) of every start / stop of an instance and of every offer / StopOffer it hands to queue_send
+  findMarks : List (Nat × Nat) := []             -- ghost: (find task, time) of its creation and of every round step it runs
   subMarks : List (Option Nat × Nat) := []       -- ghost: (none, time) of every subscriber start; (some n, time) of every refresh round, run by subscribe task n
   sendLog : List (Dest × (Bool × Nat)) := []     -- ghost: every (destination, (reboot flag, session id)) send_sd drew from the session storage
   flushLog : List (Dest × List SDEntry) := []    -- ghost: every batch of queued entries handed to send_sd (zero timeout: singletons; else a closed window)
@@ -694,6 +695,9 @@ def serviceFound (s : Stack) (f : Service) : Bool :=
 def findEntries (s : Stack) : List SDEntry :=
   (s.watched.filter (fun p => !s.serviceFound p.1)).map (fun p => p.1.createFindEntry s.tm.findTtl)
 
+/-- ghost: note that find task n was created / runs a round step now -/
+def markFind (s : Stack) (n : Nat) : Stack := { s with findMarks := s.findMarks ++ [(n, s.loop.now)] }
+
 /-- one step of `ServiceDiscover.send_find_services` -/
 def stepFind (s : Stack) (tid : Tid) (t : TaskSt) : Stack :=
   let afterSend (s : Stack) (k : Nat) : Stack :=
@@ -708,8 +712,8 @@ def stepFind (s : Stack) (tid : Tid) (t : TaskSt) : Stack :=
     else
       let r := s.draw s.tm.initialDelayMin s.tm.initialDelayMax
       r.1.sleepFor tid t r.2 .initial
-  | .initial => if t.cancelled then s.finish tid t else round s 0
-  | .rep k => if t.cancelled then s.finish tid t else round s (k + 1)
+  | .initial => if t.cancelled then s.finish tid t else round (s.markFind tid.2) 0
+  | .rep k => if t.cancelled then s.finish tid t else round (s.markFind tid.2) (k + 1)
   | _ => s
 
 def discoveryStart (s : Stack) : Stack :=
@@ -718,7 +722,7 @@ def discoveryStart (s : Stack) : Stack :=
     | none => false
   if running then s else
   let r := s.createTask .find
-  { r.1 with findTask := some r.2 }
+  ({ r.1 with findTask := some r.2 } : Stack).markFind r.2
 
 def discoveryStop (s : Stack) : Stack :=
   match s.findTask with
